@@ -6,7 +6,7 @@ import struct
 
 from sa.selftest import Mutant, Silent
 from sa.source import AnalysisError
-from sa.props._lib_d import MiniVM, VMError, VMModule, VMStub
+from sa.props._lib_h_d import MiniVM, VMError, VMModule, VMStub
 
 PROPERTY = "C36"
 CH = "conch/ssh/channel.py"
@@ -89,7 +89,8 @@ class Model:
         hooks = {"dataReceived": lambda vm, o, d: self.received.append((0, bytes(d))),
                  "extReceived": lambda vm, o, t, d: self.received.append((t, bytes(d))),
                  "closed": lambda vm, o: None, "startWriting": lambda vm, o: None, "stopWriting": lambda vm, o: None}
-        self.vm = MiniVM(ctx.mod(CO), hooks=hooks, budget=2 * 10 ** 8)
+        from sa.props._lib_h import xvm
+        self.vm = xvm(ctx.mod(CO), hooks=hooks, budget=2 * 10 ** 8)
         self.vm.mod._g["common"] = VMModule(ctx.mod(CMN), self.vm)
         self.chmod = VMModule(ctx.mod(CH), self.vm)
         self.Chan = self.chmod.globals_lookup("SSHChannel")
